@@ -60,6 +60,14 @@ int main(int argc, char** argv) {
             std::string ws = "[", ps = "[", cs = "[";
             for (int k = 0; k < 4; ++k) {
                 if (k) { ws += ','; ps += ','; cs += ','; }
+                // an annotated rendering (ar/arp view) asked in between must not influence any plain answer
+                {
+                    Disassembler::ArArpSettings view;
+                    for (auto& v : view.ar) v = rng.u16();
+                    for (auto& v : view.arp) v = rng.u16();
+                    (void)Disassembler::GetTokenList((u16)w, es[k], view);
+                    (void)Disassembler::Do((u16)w, es[k], view);
+                }
                 ws += "{\"x\":" + std::to_string(es[k]) + ",\"tok\":" + jtokens(Disassembler::GetTokenList((u16)w, es[k])) +
                       ",\"do\":" + jstr(Disassembler::Do((u16)w, es[k])) + "}";
                 ps += jstr(p.status == Parser::Opcode::Invalid ? std::string() : Disassembler::Do(p.opcode, es[k]));
